@@ -4,6 +4,8 @@ import (
 	"fmt"
 	"go/token"
 	"go/types"
+	"regexp"
+	"sort"
 	"strings"
 
 	"golang.org/x/tools/go/ssa"
@@ -291,6 +293,37 @@ func ruleQRInterleave(c *Ctx) {
 		positional = len(ems) > 0
 		if positional {
 			c.Check(R, "qr.interleave/positions", fn.Pos(), okPos, "written at a position that starts at 0 and advances by one with every write", fmt.Sprint(okPos))
+			// the slice written into must be long enough: its length must not be computed in byte arithmetic
+			// (the codeword total exceeds 255 from version 9 on; as a capacity hint of append that was harmless)
+			for _, e := range ems {
+				if st, ok := e.at.(*ssa.Store); ok {
+					if mk, ok := st.Addr.(*ssa.IndexAddr).X.(*ssa.MakeSlice); ok {
+						narrow := ""
+						var walk func(v ssa.Value, d int)
+						walk = func(v ssa.Value, d int) {
+							if d > 8 {
+								return
+							}
+							switch x := v.(type) {
+							case *ssa.BinOp:
+								if bits, _ := intSize(x.Type()); bits < 32 && isIntType(x.Type()) {
+									narrow = x.String()
+								}
+								walk(x.X, d+1)
+								walk(x.Y, d+1)
+							case *ssa.Convert:
+								walk(x.X, d+1)
+							case *ssa.Phi:
+								for _, ed := range x.Edges {
+									walk(ed, d+1)
+								}
+							}
+						}
+						walk(mk.Len, 0)
+						c.Check(R, "qr.interleave/length@"+c.P.Pos(mk.Pos()), mk.Pos(), narrow == "", "a length computed in int (it reaches 3706)", "narrow arithmetic: "+narrow)
+					}
+				}
+			}
 		}
 	}
 	type nest struct {
@@ -448,7 +481,7 @@ func loopBoundValue(hdr *ssa.BasicBlock, idx ssa.Value) ssa.Value {
 
 func init() {
 	register("C01", ruleQRAuto, ruleQRInterleave)
-	register("C10", ruleQRAuto)
+	register("C10", ruleQRAuto, ruleQRInterleave)
 	register("C12", ruleQRInterleave)
 	register("C13", ruleQRAuto)
 	register("C16", ruleQRInterleave)
@@ -646,25 +679,64 @@ func ruleAztecStuffing(c *Ctx) {
 			em = append(em, valCase{cs.val, cAnd(reach, cs.cond)})
 		}
 	}
+	// (when the masked word equals the mask, emitting the mask is emitting the masked word)
+	for i := range em {
+		if pEqual(em[i].val, pAtom("mask")) {
+			if imp, _, _ := CondRelation(em[i].cond, isMask); imp {
+				em[i].val = pAtom(and)
+			}
+		}
+	}
 	checkCasesC(c, R, "aztec.stuffBits/emit", addBits[0].Pos(), mergeCases(em), []caseSpec{
 		{pAtom(and), isMask},
 		{pAtom("Or(1,word)"), cAnd(cNot(isMask), isZero)},
 		{pAtom("word"), cAnd(cNot(isMask), cNot(isZero))}})
-	// assembly of the word
-	wphi, _ := wordV.(*ssa.Phi)
+	// assembly of the word: in this function, or in an unexported helper that is given the position
+	wfn := fn
+	wv := wordV
+	if hc, ok := wordV.(*ssa.Call); ok {
+		if g := hc.Common().StaticCallee(); g != nil && isRepoFunc(g) && g.Blocks != nil && len(returnsOf(g)) == 1 && (g.Object() == nil || !g.Object().Exported()) {
+			wfn, wv = g, returnsOf(g)[0].Results[0]
+			n.Ctx = []ssa.CallInstruction{hc}
+			defer func() { n.Ctx = nil }()
+			c.Fn(c.P.FuncName(g))
+			for _, call := range callsTo(g, c.P.Func("utils.(*BitList).Len")) {
+				if n.Norm(call.Common().Args[0]).String() == "bits" {
+					n.Bind[call] = "n"
+				}
+			}
+		}
+	}
+	wphi, _ := wv.(*ssa.Phi)
+	if wphi != nil && !isLoopHeader(wphi.Block()) {
+		wphi = rotatedExitAlias(wphi) // what a bottom-tested loop leaves behind
+	}
 	if wphi == nil || !isLoopHeader(wphi.Block()) {
 		c.Undecided(R, "aztec.stuffBits/word", fn.Pos(), "the word is not accumulated in a loop")
 		return
 	}
+	n.Bind[wphi] = "word" // (the value left behind by the loop and the value inside it go by the same name)
+	fn = wfn
 	inner := wphi.Block()
-	jv, _, jinit, okJ := loopIndex(inner)
-	if !okJ {
-		c.Undecided(R, "aztec.stuffBits/word-loop", wphi.Pos(), "no counting loop over the bits of a word")
+	// the loop over the bits of a word, described by the position q of the input bit it reads:
+	// q = i, i+1, ..., i+wordSize-1 - whatever the loop variable itself is (j with q = i+j, or q itself)
+	var get *ssa.Call
+	for _, call := range callsTo(fn, c.P.Func("utils.(*BitList).GetBit")) {
+		if inLoopBody(inner, call.Block()) && n.Norm(call.Common().Args[0]).String() == "bits" {
+			get = call
+		}
+	}
+	if get == nil {
+		c.Undecided(R, "aztec.stuffBits/word-loop", wphi.Pos(), "no read of an input bit in the word loop")
 		return
 	}
-	n.Bind[jv] = "j"
-	c.Check(R, "aztec.stuffBits/word-loop-start", wphi.Pos(), jinit == 0, "j from 0", fmt.Sprint(jinit))
-	c.expectCond(R, "aztec.stuffBits/word-loop", wphi.Pos(), n.LoopCond(inner), "j < wordSize")
+	first, step, while, okR := reindexLoop(n, inner, get.Common().Args[1])
+	if !okR {
+		c.Undecided(R, "aztec.stuffBits/word-loop", wphi.Pos(), "the bit position is not an affine function of the loop variable")
+		return
+	}
+	c.Check(R, "aztec.stuffBits/word-loop-start", wphi.Pos(), pEqual(first, pAtom("i")) && pEqual(step, pConst(1)), "bit positions i, i+1, ...", fmt.Sprintf("from %s step %s", first, step))
+	c.expectCondC(R, "aztec.stuffBits/word-loop", wphi.Pos(), while, MustRefCond("q < i + wordSize"))
 	var asm []valCase
 	for ei, e := range wphi.Edges {
 		pred := inner.Preds[ei]
@@ -672,15 +744,54 @@ func ruleAztecStuffing(c *Ctx) {
 			c.expectPoly(R, "aztec.stuffBits/word-start", wphi.Pos(), n, e, "0")
 			continue
 		}
-		edge := cAnd(n.ReachCond(fn, inner.Succs[0], pred), n.EdgeCond(pred, inner))
-		for _, cs := range n.valueCases(fn, inner.Succs[0], e, 0) {
+		wbody := n.BodyStart(inner)
+		edge := cAnd(n.ReachCond(fn, wbody, pred), n.EdgeCond(pred, inner))
+		if _, isRot := rotatedLoop(inner); isRot {
+			edge = n.ReachCond(fn, wbody, pred) // the latch test decides about the next iteration, not about this value
+		}
+		for _, cs := range n.valueCases(fn, wbody, e, 0) {
 			asm = append(asm, valCase{cs.val, cAnd(edge, cs.cond)})
 		}
 	}
-	setIff := cOr(MustRefCond("i + j >= n"), &Cond{Kind: CBool, Name: "call:utils.(*BitList).GetBit(bits," + MustRef("i + j").String() + ")"})
-	checkCasesC(c, R, "aztec.stuffBits/word-bit", wphi.Pos(), mergeCases(asm), []caseSpec{
-		{pAtom("Or(Shl(1," + MustRef("wordSize - 1 - j").String() + "),word)"), setIff},
-		{pAtom("word"), cNot(setIff)}})
+	asm = mergeCases(asm)
+	// within the loop the position is inside the word
+	dom := MustRefCond("q < i + wordSize")
+	for k := range asm {
+		asm[k].cond = cAnd(dom, asm[k].cond)
+	}
+	setIff := cAnd(dom, cOr(MustRefCond("q >= n"), &Cond{Kind: CBool, Name: "call:utils.(*BitList).GetBit(bits,q)"}))
+	clrIff := cAnd(dom, cNot(cOr(MustRefCond("q >= n"), &Cond{Kind: CBool, Name: "call:utils.(*BitList).GetBit(bits,q)"})))
+	forms := [][]caseSpec{
+		{{pAtom("Or(Shl(1," + MustRef("wordSize - 1 - q + i").String() + "),word)"), setIff}, {pAtom("word"), clrIff}},
+		{{pAtom("Or(1," + MustRef("2*word").String() + ")"), setIff}, {MustRef("2*word"), clrIff}},
+		{{MustRef("2*word + 1"), setIff}, {MustRef("2*word"), clrIff}},
+	}
+	okForm := false
+	for _, specs := range forms {
+		ok := len(asm) == len(specs)
+		for _, sp := range specs {
+			hit := false
+			for _, cs := range asm {
+				if pEqual(cs.val, sp.val) {
+					if eq, _ := CondEquivalent(cs.cond, sp.cond); eq {
+						hit = true
+					}
+				}
+			}
+			if !hit {
+				ok = false
+			}
+		}
+		if ok {
+			okForm = true
+		}
+	}
+	got := ""
+	for _, cs := range asm {
+		got += fmt.Sprintf("%s when %s; ", cs.val, cs.cond)
+	}
+	c.Check(R, "aztec.stuffBits/word-bit", wphi.Pos(), okForm, "the bit read at q goes to place wordSize-1-(q-i) of the word (or word = 2*word + bit), set iff q is past the end or the input bit is set", got)
+	n.env = n.env[:len(n.env)-1]
 }
 
 func init() {
@@ -1011,6 +1122,7 @@ func ruleAztecCheckWords(c *Ctx) {
 				}
 			}
 			var srcs []string
+			var outerIdx ssa.Value // set when one loop nest walks a two-entry list {msg, ecc}
 			switch v {
 			case "msg[k]":
 				srcs = []string{"msg"}
@@ -1019,9 +1131,39 @@ func ruleAztecCheckWords(c *Ctx) {
 			case "call:slices.Concat(msg,ecc)[k]":
 				srcs = []string{"msg", "ecc"} // one pass over the message words followed by the check words
 			default:
-				c.Check(R, "aztec.generateCheckWords/emissions", call.Pos(), false, "message word k or check word k", v)
+				// for _, words := range [][]int{msg, ecc} { for _, w := range words { ... } }
+				var h2 *ssa.BasicBlock
+				if e := loopEntry(h); e != h {
+					h2 = enclosingLoopHeader(e)
+				} else if h.Idom() != nil {
+					h2 = enclosingLoopHeader(h.Idom())
+				}
+				if h2 != nil && h2 != h && len(site.Path) == 0 {
+					if i2, _, init2, ok2 := loopIndex(h2); ok2 && init2 == 0 {
+						var vs []string
+						for g := int64(0); g < 3; g++ {
+							n.env = append(n.env, map[ssa.Value]Poly{i2: pConst(g)})
+							cont := n.LoopCond(h2)
+							vs = append(vs, canonAccess(n.Norm(call.Common().Args[1]).String()))
+							n.env = n.env[:len(n.env)-1]
+							if eq, _ := CondEquivalent(cont, cTrue); !eq {
+								vs = vs[:len(vs)-1]
+								break
+							}
+						}
+						if len(vs) == 2 && vs[0] == "msg[k]" && vs[1] == "ecc[k]" {
+							srcs, outerIdx = []string{"msg", "ecc"}, i2
+						}
+					}
+				}
+				if srcs == nil {
+					c.Check(R, "aztec.generateCheckWords/emissions", call.Pos(), false, "message word k or check word k", v)
+				}
 			}
-			for _, src := range srcs {
+			for si, src := range srcs {
+				if outerIdx != nil {
+					n.env = append(n.env, map[ssa.Value]Poly{outerIdx: pConst(int64(si))})
+				}
 				e := &emit{call, top, h}
 				if src == "msg" {
 					mw = e
@@ -1029,13 +1171,16 @@ func ruleAztecCheckWords(c *Ctx) {
 					ew = e
 				}
 				list := src
-				if len(srcs) == 2 {
+				if len(srcs) == 2 && outerIdx == nil {
 					list = "call:slices.Concat(msg,ecc)"
 				}
 				w1, _ := CondEquivalent(n.LoopCond(h), cmpCond(token.LSS, pAtom("k"), pAtom("len("+list+")")))
 				c.Check(R, "aztec.generateCheckWords/"+src+"-all", call.Pos(), w1, "k < len("+list+")", n.LoopCond(h).String())
 				c.expectCond(R, "aztec.generateCheckWords/"+src+"-always", call.Pos(), n.ReachCond(site.Fn, n.BodyStart(h), call.Block()), "true")
 				c.Check(R, "aztec.generateCheckWords/"+src+"-width", call.Pos(), n.Norm(call.Common().Args[2]).String() == "Conv:uint8(wordSize)", "wordSize bits", n.Norm(call.Common().Args[2]).String())
+				if outerIdx != nil {
+					n.env = n.env[:len(n.env)-1]
+				}
 			}
 			if had {
 				n.Bind[idx] = old
@@ -1315,35 +1460,46 @@ func ruleAztecTokens(c *Ctx) {
 			body := n.BodyStart(hdr)
 			c.expectCond(R, "aztec.(*binaryShiftToken).appendTo/bytes", hdr.Instrs[0].Pos(), n.LoopCond(hdr), "i < cnt")
 			c.expectCond(R, "aztec.(*binaryShiftToken).appendTo/byte-always", addByte[0].Ins.Pos(), n.ReachCond(fn, body, addByte[0].Ins.Block()), "true")
-			// the first emission of an iteration is the header code
-			first := -1
-			for ai, a := range addBits {
-				dom := true
+			// the first emission of an iteration is the header code: the emissions no other one precedes
+			isFirst := map[int]bool{}
+			for ai := range addBits {
+				minimal := true
 				for bi, b := range addBits {
-					if ai != bi && !precedes(a, b) {
-						dom = false
+					if ai != bi && precedes(b, addBits[ai]) {
+						minimal = false
 					}
 				}
-				if dom {
-					first = ai
-				}
+				isFirst[ai] = minimal
 			}
 			H := MustRefCond("i == 0 || (i == 31 && cnt <= 62)")
-			if first < 0 {
-				c.Check(R, "aztec.(*binaryShiftToken).appendTo/header", fn.Pos(), false, "the code 31 in 5 bits before any length field", "no emission that precedes all others")
-			} else {
-				fs := addBits[first]
-				fc := fs.Ins.(*ssa.Call)
+			hdrCond := cFalse
+			okHdr := true
+			gotHdr := ""
+			var fc *ssa.Call
+			for ai, fs := range addBits {
+				if !isFirst[ai] {
+					continue
+				}
+				fc = fs.Ins.(*ssa.Call)
 				got := fmt.Sprintf("(%s, %s)", n.NormAt(fs, fc.Common().Args[1]), n.NormAt(fs, fc.Common().Args[2]))
-				c.Check(R, "aztec.(*binaryShiftToken).appendTo/header", fc.Pos(), got == "(31, 5)", "(31, 5)", got)
-				c.expectCondC(R, "aztec.(*binaryShiftToken).appendTo/header-iff", fc.Pos(), n.ReachCondDeep(fn, body, fs), H)
+				if got != "(31, 5)" {
+					okHdr = false
+				}
+				gotHdr += got + " "
+				hdrCond = cOr(hdrCond, n.ReachCondDeep(fn, body, fs))
+			}
+			if fc == nil {
+				c.Check(R, "aztec.(*binaryShiftToken).appendTo/header", fn.Pos(), false, "the code 31 in 5 bits before any length field", "no emission that precedes the others")
+			} else {
+				c.Check(R, "aztec.(*binaryShiftToken).appendTo/header", fc.Pos(), okHdr, "(31, 5)", gotHdr)
+				c.expectCondC(R, "aztec.(*binaryShiftToken).appendTo/header-iff", fc.Pos(), hdrCond, H)
 				type lf struct {
 					key  string
 					cond *Cond
 				}
 				var fields []lf
 				for ai, a := range addBits {
-					if ai == first {
+					if isFirst[ai] {
 						continue
 					}
 					call := a.Ins.(*ssa.Call)
@@ -1779,9 +1935,10 @@ func ruleTwoOfFiveAssembly(c *Ctx) {
 		call   *ssa.Call
 		bit    string
 		xh, ih *ssa.BasicBlock
-		width  string    // the loop bound of the module loop, pattern named A
-		base   ssa.Value // the pattern, as a value of EncodeWithColor
-		path   []int     // field of a struct local, if the pattern is one
+		width  string       // the loop bound of the module loop, pattern named A
+		wcases [2][]valCase // ... and its alternatives per variant (0 standard, 1 interleaved), by the element's value
+		base   ssa.Value    // the pattern, as a value of EncodeWithColor
+		path   []int        // field of a struct local, if the pattern is one
 		at     ssa.Instruction
 	}
 	var units []unit
@@ -1855,13 +2012,21 @@ func ruleTwoOfFiveAssembly(c *Ctx) {
 		xh, ih := loops[0], loops[1]
 		xi, _, xinit, okx := loopIndex(xh.h)
 		iv, _, _, oki := loopIndex(ih.h)
+		var bound ssa.Value
+		if !okx && oki {
+			// a run counted down: `for ; n > 0; n--` appends n modules
+			bound = countdownFrom(xh.h)
+			okx, xinit = bound != nil, 0
+		}
 		if !okx || !oki || xinit != 0 {
 			c.Undecided(R, "twooffive.EncodeWithColor/module-loop@"+c.P.Pos(call.Pos()), call.Pos(), "not counting loops from 0")
 			continue
 		}
-		bound := loopBoundValue(xh.h, xi)
-		if rot, isRot := rotatedLoop(xh.h); isRot {
-			bound = loopBoundValue(rot.latch, rot.next)
+		if bound == nil {
+			bound = loopBoundValue(xh.h, xi)
+			if rot, isRot := rotatedLoop(xh.h); isRot {
+				bound = loopBoundValue(rot.latch, rot.next)
+			}
 		}
 		if bound == nil {
 			c.Undecided(R, "twooffive.EncodeWithColor/module-loop@"+c.P.Pos(call.Pos()), call.Pos(), "bound of the module loop not found")
@@ -1941,6 +2106,28 @@ func ruleTwoOfFiveAssembly(c *Ctx) {
 		if r, pth, ok := n.addrPath(exprBase); ok {
 			w = strings.Replace(w, r+pth+"[i]", "A[i]", 1)
 		}
+		var wcases [2][]valCase
+		if ilP := boolParam(fn); ilP != nil {
+			savedFold := n.FoldTables
+			n.FoldTables = true
+			elemName := ""
+			if r, pth, ok := n.addrPath(exprBase); ok {
+				elemName = r + pth + "[i]"
+			}
+			ilName, ilBound := n.Bind[ilP]
+			delete(n.Bind, ilP) // the flag takes its two values in turn
+			for b := int64(0); b < 2; b++ {
+				n.env = append(n.env, map[ssa.Value]Poly{ilP: pConst(b)})
+				for _, cs := range n.valueCases(vfn, nil, v, 0) {
+					wcases[b] = append(wcases[b], valCase{cs.val, renameBool(cs.cond, elemName, "A[i]")})
+				}
+				n.env = n.env[:len(n.env)-1]
+			}
+			if ilBound {
+				n.Bind[ilP] = ilName
+			}
+			n.FoldTables = savedFold
+		}
 		if had {
 			n.Bind[base] = old
 		} else {
@@ -1948,7 +2135,7 @@ func ruleTwoOfFiveAssembly(c *Ctx) {
 		}
 		rootBase, _ := n.throughParams(base, vfn)
 		n.Ctx = nil
-		u := unit{call: call, bit: bit, xh: xh.h, ih: ih.h, width: w, base: rootBase, path: fieldPath}
+		u := unit{call: call, bit: bit, xh: xh.h, ih: ih.h, width: w, wcases: wcases, base: rootBase, path: fieldPath}
 		if ld, ok := rootBase.(*ssa.UnOp); ok && ld.Op == token.MUL {
 			u.base, u.at = ld.X, ld // the array is handed over by value: read here
 		} else if ih.k == 0 {
@@ -2007,7 +2194,34 @@ func ruleTwoOfFiveAssembly(c *Ctx) {
 		return
 	}
 	c.Check(R, "twooffive.EncodeWithColor/widths", bar.call.Pos(), wa == wb && strings.Contains(wa, "A[i]"), "the same width rule applied to a[i] and b[i]", wa+" / "+wb)
-	c.Check(R, "twooffive.EncodeWithColor/width-rule", bar.call.Pos(), strings.HasSuffix(wa, ".widths[A[i]]") && strings.Contains(wa, "[interleaved]"), "the width table of the variant (B3 pins its entries)", wa)
+	// the width as a function of (variant, element value): 1 module for a narrow element, 2 or 3 for a
+	// wide one, in both variants - however the table is laid out
+	semOK := true
+	semWhy := ""
+	for _, u := range []unit{bar, space} {
+		for b := 0; b < 2; b++ {
+			narrow, wide := cFalse, cFalse
+			for _, cs := range u.wcases[b] {
+				k, isK := cs.val.IsConst()
+				switch {
+				case isK && k == 1:
+					narrow = cOr(narrow, cs.cond)
+				case isK && (k == 2 || k == 3):
+					wide = cOr(wide, cs.cond)
+				default:
+					semOK, semWhy = false, semWhy+fmt.Sprintf(" variant %d: width %s when %s;", b, cs.val, cs.cond)
+				}
+			}
+			elem := &Cond{Kind: CBool, Name: "A[i]"}
+			if eq, _ := CondEquivalent(narrow, cNot(elem)); !eq {
+				semOK, semWhy = false, semWhy+fmt.Sprintf(" variant %d: one module when %s;", b, narrow)
+			}
+			if eq, _ := CondEquivalent(wide, elem); !eq {
+				semOK, semWhy = false, semWhy+fmt.Sprintf(" variant %d: two or three modules when %s;", b, wide)
+			}
+		}
+	}
+	c.Check(R, "twooffive.EncodeWithColor/width-rule", bar.call.Pos(), semOK, "1 module for a narrow element, 2..3 for a wide one, in both variants", wa+" "+semWhy)
 	_ = ii
 	// the alternatives of a pattern: a local array written per variant (read where the drawing starts
 	// or where it is handed to the helper), or a value selected per variant
@@ -2501,4 +2715,552 @@ func (n *Normer) condCases(fn *ssa.Function, from *ssa.BasicBlock, v ssa.Value) 
 func init() {
 	register("C01", ruleQRRender)
 	register("C12", ruleQRRender)
+}
+
+// P14: how far a PDF417 compaction segment reaches.
+func rulePDFSegments(c *Ctx) {
+	const R = "P14-PDF-SEGMENTS"
+	c.Doc(R, "pdf417 segment scans: determineConsecutiveDigitCount = length of the leading run of ASCII digits (utils.RuneToInt(r) >= 0 - not a Unicode digit class); determineConsecutiveTextCount stops at the first position where a run of >= 13 digits starts or where a non-text character stands (no digit run and !isText); determineConsecutiveBinaryCount stops where a run of >= 13 digits or of > 5 text characters starts; each returns the number of positions passed before the stop")
+	c.Floor(R, 6)
+	type scan struct {
+		fn   *ssa.Function
+		hdr  *ssa.BasicBlock
+		idx  ssa.Value
+		elem ssa.Value
+		n    *Normer
+	}
+	open := func(name string) *scan {
+		fn := c.theFunc(R, name)
+		if fn == nil || len(fn.Params) != 1 {
+			return nil
+		}
+		n := NewNormer(c.P)
+		n.BindParams(fn, "msg")
+		n.NoInline["pdf417.determineConsecutiveDigitCount"], n.NoInline["pdf417.determineConsecutiveTextCount"], n.NoInline["utils.RuneToInt"] = true, true, true
+		s := &scan{fn: fn, n: n}
+		// the position: the variable the header test compares with the length (the count that is returned
+		// may be a second variable that also goes up by one)
+		for _, b := range fn.Blocks {
+			if !isLoopHeader(b) || s.hdr != nil {
+				continue
+			}
+			iff, ok := b.Instrs[len(b.Instrs)-1].(*ssa.If)
+			if !ok {
+				continue
+			}
+			bo, ok := iff.Cond.(*ssa.BinOp)
+			if !ok || bo.Op != token.LSS {
+				continue
+			}
+			switch x := bo.X.(type) {
+			case *ssa.Phi:
+				if x.Block() == b && counterFromZero(x, 0) {
+					s.hdr, s.idx = b, x
+				}
+			case *ssa.BinOp:
+				// range loops: the index is phi+1 with phi starting at -1
+				if p, isPhi := x.X.(*ssa.Phi); isPhi && p.Block() == b && x.Op == token.ADD {
+					if k, isK := constInt(x.Y); isK && k == 1 {
+						for ei, e := range p.Edges {
+							if !b.Dominates(b.Preds[ei]) {
+								if k0, isK0 := constInt(e); isK0 && k0 == -1 {
+									s.hdr, s.idx = b, x
+								}
+							}
+						}
+					}
+				}
+			}
+		}
+		if s.hdr == nil {
+			c.Undecided(R, name+"/scan", fn.Pos(), "no loop over the positions of the input from 0")
+			return nil
+		}
+		n.Bind[s.idx] = "i"
+		eachInstr(fn, func(b *ssa.BasicBlock, ins ssa.Instruction) {
+			if ld, ok := ins.(*ssa.UnOp); ok {
+				if ia, ok := ld.X.(*ssa.IndexAddr); ok && ia.X == ssa.Value(fn.Params[0]) && ia.Index == s.idx {
+					s.elem = ld
+				}
+			}
+		})
+		if s.elem != nil {
+			n.Bind[s.elem] = "ch"
+		}
+		eq, _ := CondEquivalent(n.LoopCond(s.hdr), MustRefCond("i < len(msg)"))
+		c.Check(R, name+"/all-positions", s.hdr.Instrs[0].Pos(), eq, "i < len(msg)", n.LoopCond(s.hdr).String())
+		return s
+	}
+	// the continue condition of an iteration and the count that is returned
+	finish := func(name string, s *scan, want *Cond, dom *Cond) {
+		n, fn := s.n, s.fn
+		body := n.BodyStart(s.hdr)
+		cont := cFalse
+		for _, p := range s.hdr.Preds {
+			if s.hdr.Dominates(p) {
+				cont = cOr(cont, cAnd(n.ReachCond(fn, body, p), n.EdgeCond(p, s.hdr)))
+			}
+		}
+		if dom != nil {
+			cont, want = cAnd(dom, cont), cAnd(dom, want)
+		}
+		c.expectCondC(R, name+"/continue-iff", s.hdr.Instrs[0].Pos(), cont, want)
+		for k, ret := range returnsOf(fn) {
+			v := ret.Results[0]
+			ok := false
+			why := n.Norm(v).String()
+			switch {
+			case v == s.idx && inLoopBody(s.hdr, ret.Block()):
+				ok = true // stopped at position i: i positions passed
+			case pEqual(n.Norm(v), MustRef("len(msg)")) && !inLoopBody(s.hdr, ret.Block()):
+				ok = true // every position passed
+			default:
+				// a counter that goes up by one with every position passed
+				if p, isPhi := v.(*ssa.Phi); isPhi && counterFromZero(p, 0) {
+					steps, every := 0, true
+					eachInstr(fn, func(b *ssa.BasicBlock, ins ssa.Instruction) {
+						bo, isB := ins.(*ssa.BinOp)
+						if !isB || bo.Op != token.ADD || !samePhiWeb(bo.X, p) && bo.X != ssa.Value(p) {
+							return
+						}
+						if kk, isK := constInt(bo.Y); !isK || kk != 1 {
+							return
+						}
+						steps++
+						for _, lp := range s.hdr.Preds {
+							if s.hdr.Dominates(lp) && !b.Dominates(lp) {
+								every = false
+							}
+						}
+					})
+					ok = steps == 1 && every
+					why = fmt.Sprintf("counter with %d step(s), on every continued iteration: %v", steps, every)
+				}
+			}
+			c.Check(R, fmt.Sprintf("%s/count#%d", name, k+1), ret.Pos(), ok, "the number of positions passed", why)
+		}
+	}
+	if s := open("pdf417.determineConsecutiveDigitCount"); s != nil && s.elem != nil {
+		var d *ssa.Call
+		for _, call := range callsTo(s.fn, c.P.Func("utils.RuneToInt")) {
+			if call.Common().Args[0] == s.elem {
+				d = call
+			}
+		}
+		if d != nil {
+			s.n.Bind[d] = "d"
+			finish("pdf417.determineConsecutiveDigitCount", s, MustRefCond("d >= 0"), MustRefCond("d >= -1"))
+		} else {
+			finish("pdf417.determineConsecutiveDigitCount", s, MustRefCond("ch >= 48 && ch <= 57"), nil)
+		}
+	}
+	restRe := regexp.MustCompile(`^(Conv:[^()]*\()*slice\(msg,i,\)\)*$`)
+	rest := func(s *scan, call *ssa.Call) bool {
+		// the argument: the input from position i on (as runes, possibly converted from bytes, possibly
+		// through a conversion helper)
+		return restRe.MatchString(s.n.Norm(call.Common().Args[0]).String())
+	}
+	if s := open("pdf417.determineConsecutiveTextCount"); s != nil && s.elem != nil {
+		okArgs := false
+		for _, call := range callsTo(s.fn, c.P.Func("pdf417.determineConsecutiveDigitCount")) {
+			if rest(s, call) {
+				s.n.Bind[call] = "nc"
+				okArgs = true
+			}
+		}
+		c.Check(R, "pdf417.determineConsecutiveTextCount/digit-run", s.fn.Pos(), okArgs, "digit run measured from the current position", fmt.Sprint(okArgs))
+		isText := MustRefCond("ch == 9 || ch == 10 || ch == 13 || (ch >= 32 && ch <= 126)")
+		stop := cOr(MustRefCond("nc >= 13"), cAnd(MustRefCond("nc == 0"), cNot(isText)))
+		finish("pdf417.determineConsecutiveTextCount", s, cNot(stop), MustRefCond("nc >= 0"))
+	}
+	if s := open("pdf417.determineConsecutiveBinaryCount"); s != nil {
+		okN, okT := false, false
+		for _, call := range callsTo(s.fn, c.P.Func("pdf417.determineConsecutiveDigitCount")) {
+			if rest(s, call) {
+				s.n.Bind[call] = "nc"
+				okN = true
+			}
+		}
+		for _, call := range callsTo(s.fn, c.P.Func("pdf417.determineConsecutiveTextCount")) {
+			if rest(s, call) {
+				s.n.Bind[call] = "tc"
+				okT = true
+			}
+		}
+		c.Check(R, "pdf417.determineConsecutiveBinaryCount/runs", s.fn.Pos(), okN && okT, "digit run and text run measured from the current position", fmt.Sprint(okN, okT))
+		finish("pdf417.determineConsecutiveBinaryCount", s, MustRefCond("nc < 13 && tc <= 5"), nil)
+	}
+}
+
+func init() {
+	register("C04", rulePDFSegments)
+	register("C10", rulePDFSegments)
+}
+
+// Q17: alignment patterns, finder patterns and timing patterns of the QR symbol.
+func ruleQRPatterns(c *Ctx) {
+	const R = "Q17-QR-PATTERNS"
+	c.Doc(R, "qr.drawAlignmentPatterns: for every pair (x, y) of alignment positions a 5x5 pattern (ring and centre dark) is drawn around (x, y) exactly when module (x, y) is not yet occupied - the occupancy map decides, not the coordinates; qr.drawFinderPatterns: three 7x7 patterns with separator at (0,0), (0,dim-7), (dim-7,0), clipped to the symbol; timing: modules (i,6) and (6,i) alternate with i%2 == 0 dark wherever not occupied")
+	c.Floor(R, 8)
+	// a pattern drawer: nested loops over (dx, dy), a set call at (dx+xoff, dy+yoff) with a value formula
+	type drawer struct {
+		fn         *ssa.Function
+		from, to   [2]int64 // loop ranges (inclusive from, exclusive to)
+		val        *Cond
+		guard      *Cond
+		clip       *Cond // x+xoff, y+yoff inside 0..dim-1, in the drawer's own terms
+		dim        Poly
+		clipBound  ssa.Value
+		okCoord    bool
+		paramNames [2]string
+		dom        *Cond  // the loops' own ranges
+		offIdx     [2]int // positions of the two offsets among the parameters
+	}
+	analyse := func(cl *ssa.Function, key string) *drawer {
+		if cl == nil || len(cl.Params) < 2 {
+			c.Undecided(R, key+"/drawer", token.NoPos, "no routine that draws one pattern at an offset")
+			return nil
+		}
+		n := NewNormer(c.P)
+		var setCall *ssa.Call
+		eachInstr(cl, func(b *ssa.BasicBlock, ins ssa.Instruction) {
+			if call, ok := ins.(*ssa.Call); ok && call.Common().StaticCallee() == nil && len(call.Common().Args) == 3 {
+				setCall = call
+			}
+		})
+		if setCall == nil {
+			c.Undecided(R, key+"/set", cl.Pos(), "no call of the marking function")
+			return nil
+		}
+		inner := enclosingLoopHeader(setCall.Block())
+		var outer *ssa.BasicBlock
+		if inner != nil && inner.Idom() != nil {
+			outer = enclosingLoopHeader(inner.Idom())
+		}
+		if inner == nil || outer == nil {
+			c.Undecided(R, key+"/loops", setCall.Pos(), "not two nested loops")
+			return nil
+		}
+		d := &drawer{fn: cl}
+		xi, _, xinit, ok1 := loopIndex(outer)
+		yi, _, yinit, ok2 := loopIndex(inner)
+		if !ok1 || !ok2 {
+			c.Undecided(R, key+"/loops", setCall.Pos(), "not counting loops")
+			return nil
+		}
+		n.Bind[xi], n.Bind[yi] = "x", "y"
+		// parameters by role: the two offsets are what is added to the loop variables in the marked
+		// coordinates; another integer (parameter or captured variable) is the symbol dimension
+		var ints []ssa.Value
+		for _, p := range cl.Params {
+			if isIntType(p.Type()) {
+				ints = append(ints, p)
+			}
+		}
+		for _, fv := range cl.FreeVars {
+			if pt, ok := fv.Type().Underlying().(*types.Pointer); ok && isIntType(pt.Elem()) {
+				continue // a captured variable cell: read through its loads
+			}
+			if isIntType(fv.Type()) {
+				ints = append(ints, fv)
+			}
+		}
+		for k, v := range ints {
+			n.Bind[v] = fmt.Sprintf("p%d", k)
+		}
+		{
+			a := setCall.Common().Args
+			paramIdx := func(v ssa.Value) int {
+				for pi, p := range cl.Params {
+					if ssa.Value(p) == v {
+						return pi
+					}
+				}
+				return -1
+			}
+			d.offIdx = [2]int{-1, -1}
+			for k, v := range ints {
+				if pEqual(n.Norm(a[0]), MustRef(fmt.Sprintf("x + p%d", k))) {
+					n.Bind[v] = "xoff"
+					d.offIdx[0] = paramIdx(v)
+				} else if pEqual(n.Norm(a[1]), MustRef(fmt.Sprintf("y + p%d", k))) {
+					n.Bind[v] = "yoff"
+					d.offIdx[1] = paramIdx(v)
+				}
+			}
+			for _, v := range ints {
+				if strings.HasPrefix(n.Bind[v], "p") {
+					n.Bind[v] = "dim"
+					d.clipBound = v
+				}
+			}
+		}
+		d.from = [2]int64{xinit, yinit}
+		for k, h := range []*ssa.BasicBlock{outer, inner} {
+			v := []string{"x", "y"}[k]
+			for lim := int64(-3); lim < 12; lim++ {
+				if eq, _ := CondEquivalent(n.LoopCond(h), MustRefCond(fmt.Sprintf("%s < %d", v, lim))); eq {
+					d.to[k] = lim
+				}
+			}
+		}
+		a := setCall.Common().Args
+		d.okCoord = pEqual(n.Norm(a[0]), MustRef("x + xoff")) && pEqual(n.Norm(a[1]), MustRef("y + yoff"))
+		d.val = n.CondOf(a[2])
+		// what decides whether a module of the pattern is marked: everything between the start of the
+		// outer loop's body and the call (a clip test may skip a whole column before the inner loop) -
+		// compared on the loops' own ranges
+		dom := MustRefCond(fmt.Sprintf("x >= %d && x < %d && y >= %d && y < %d", d.from[0], d.to[0], d.from[1], d.to[1]))
+		d.dom = dom
+		d.guard = cAnd(dom, n.ReachCond(cl, n.BodyStart(outer), setCall.Block()))
+		// the symbol's dimension: a parameter, a variable of the enclosing function, or a bound read
+		// in the comparison itself
+		dimP := pAtom("dim")
+		if d.clipBound == nil {
+			eachInstr(cl, func(b *ssa.BasicBlock, ins ssa.Instruction) {
+				if bo, ok := ins.(*ssa.BinOp); ok && bo.Op == token.LSS && pEqual(n.Norm(bo.X), MustRef("x + xoff")) {
+					dimP = n.Norm(bo.Y)
+					d.clipBound = bo.Y
+				}
+			})
+		}
+		d.clip = cAnd(dom, cAnd(cAnd(cmpCond(token.GEQ, MustRef("x + xoff"), pConst(0)), cmpCond(token.LSS, MustRef("x + xoff"), dimP)), cAnd(cmpCond(token.GEQ, MustRef("y + yoff"), pConst(0)), cmpCond(token.LSS, MustRef("y + yoff"), dimP))))
+		d.dim = dimP
+		return d
+	}
+	// the routine that draws one pattern: a function literal or an unexported function called from fn
+	// with the offset as its first two (int) arguments, which calls a marking function
+	closureOf := func(fn *ssa.Function) *ssa.Function {
+		var found *ssa.Function
+		eachInstr(fn, func(b *ssa.BasicBlock, ins ssa.Instruction) {
+			call, ok := ins.(*ssa.Call)
+			if !ok || found != nil {
+				return
+			}
+			cal := call.Common().StaticCallee()
+			if cal == nil || !isRepoFunc(cal) || cal.Blocks == nil {
+				return
+			}
+			nInts := 0
+			for _, p := range cal.Params {
+				if isIntType(p.Type()) {
+					nInts++
+				}
+			}
+			if nInts < 2 {
+				return
+			}
+			if cal.Parent() == nil && (cal.Object() == nil || cal.Object().Exported()) {
+				return
+			}
+			marks := false
+			eachInstr(cal, func(b2 *ssa.BasicBlock, i2 ssa.Instruction) {
+				if c2, ok := i2.(*ssa.Call); ok && c2.Common().StaticCallee() == nil && !c2.Common().IsInvoke() && len(c2.Common().Args) == 3 {
+					marks = true
+				}
+			})
+			if marks {
+				found = cal
+			}
+		})
+		return found
+	}
+	if fn := c.theFunc(R, "qr.drawAlignmentPatterns"); fn != nil {
+		var occP, viP *ssa.Parameter
+		for _, p := range fn.Params {
+			switch namedTypeName(p.Type()) {
+			case "qr.qrcode":
+				occP = p
+			case "qr.versionInfo":
+				viP = p
+			}
+		}
+		if occP == nil || viP == nil {
+			c.Check(R, "qr.drawAlignmentPatterns/unless-occupied", fn.Pos(), false, "receives the occupancy map and the version row", c.P.FuncName(fn)+fn.Signature.String())
+		} else if d := analyse(closureOf(fn), "qr.drawAlignmentPatterns"); d != nil {
+			c.Check(R, "qr.drawAlignmentPatterns/extent", d.fn.Pos(), d.from == [2]int64{-2, -2} && d.to == [2]int64{3, 3} && d.okCoord, "dx, dy = -2..2 around the centre", fmt.Sprintf("from %v to %v", d.from, d.to))
+			c.expectCondC(R, "qr.drawAlignmentPatterns/shape", d.fn.Pos(), d.val, MustRefCond("x == -2 || x == 2 || y == -2 || y == 2 || (x == 0 && y == 0)"))
+			c.expectCondC(R, "qr.drawAlignmentPatterns/every-module", d.fn.Pos(), d.guard, d.dom)
+			// the call: for all pairs of positions, unless occupied
+			n := NewNormer(c.P)
+			n.Bind[occP], n.Bind[viP] = "occupied", "vi"
+			n.NoInline["qr.(*qrcode).Get"] = true
+			var draw *ssa.Call
+			eachInstr(fn, func(b *ssa.BasicBlock, ins ssa.Instruction) {
+				if call, ok := ins.(*ssa.Call); ok && call.Common().StaticCallee() == d.fn {
+					draw = call
+				}
+			})
+			var posV ssa.Value
+			for _, call := range callsTo(fn, c.P.Func("qr.(*versionInfo).alignmentPatternPlacements")) {
+				if call.Common().Args[0] == ssa.Value(viP) {
+					posV = call
+				}
+			}
+			if draw == nil || posV == nil {
+				c.Check(R, "qr.drawAlignmentPatterns/pairs", fn.Pos(), false, "the pattern drawn for the positions of this version", "no draw call / no positions")
+			} else {
+				n.Bind[posV] = "pos"
+				inner := enclosingLoopHeader(draw.Block())
+				var outer *ssa.BasicBlock
+				if inner != nil && inner.Idom() != nil {
+					outer = enclosingLoopHeader(inner.Idom())
+				}
+				if inner == nil || outer == nil {
+					c.Check(R, "qr.drawAlignmentPatterns/pairs", draw.Pos(), false, "inside two nested loops over the positions", "not nested")
+				} else {
+					oi, _, oinit, ok1 := loopIndex(outer)
+					ii, _, iinit, ok2 := loopIndex(inner)
+					if ok1 && ok2 {
+						n.Bind[oi], n.Bind[ii] = "a", "b"
+						e1, _ := CondEquivalent(n.LoopCond(outer), MustRefCond("a < len(pos)"))
+						e2, _ := CondEquivalent(n.LoopCond(inner), MustRefCond("b < len(pos)"))
+						cx, cy := canonAccess(n.Norm(draw.Common().Args[0]).String()), canonAccess(n.Norm(draw.Common().Args[1]).String())
+						okPairs := oinit == 0 && iinit == 0 && e1 && e2 && ((cx == "pos[a]" && cy == "pos[b]") || (cx == "pos[b]" && cy == "pos[a]")) && loopExitsOnlyAtHeader(inner) && loopExitsOnlyAtHeader(outer)
+						c.Check(R, "qr.drawAlignmentPatterns/pairs", draw.Pos(), okPairs, "every pair (pos[a], pos[b])", fmt.Sprintf("(%s, %s) for %s, %s", cx, cy, n.LoopCond(outer), n.LoopCond(inner)))
+						occ := &Cond{Kind: CBool, Name: fmt.Sprintf("call:qr.(*qrcode).Get(occupied,%s,%s)", n.Norm(draw.Common().Args[0]), n.Norm(draw.Common().Args[1]))}
+						c.expectCondC(R, "qr.drawAlignmentPatterns/unless-occupied", draw.Pos(), n.ReachCond(fn, n.BodyStart(inner), draw.Block()), cNot(occ))
+					} else {
+						c.Undecided(R, "qr.drawAlignmentPatterns/pairs", draw.Pos(), "not counting loops")
+					}
+				}
+			}
+		}
+	}
+	if fn := c.theFunc(R, "qr.drawFinderPatterns"); fn != nil {
+		if d := analyse(closureOf(fn), "qr.drawFinderPatterns"); d != nil {
+			c.Check(R, "qr.drawFinderPatterns/extent", d.fn.Pos(), d.from == [2]int64{-1, -1} && d.to == [2]int64{8, 8} && d.okCoord, "x, y = -1..7 (pattern and separator)", fmt.Sprintf("from %v to %v", d.from, d.to))
+			c.expectCondC(R, "qr.drawFinderPatterns/shape", d.fn.Pos(), d.val, MustRefCond("(x == 0 || x == 6 || y == 0 || y == 6 || (x > 1 && x < 5 && y > 1 && y < 5)) && x <= 6 && y <= 6 && x >= 0 && y >= 0"))
+			// clipped to the symbol
+			nn := NewNormer(c.P)
+			nn.BindParams(d.fn, "xoff", "yoff")
+			_ = nn
+			c.expectCondC(R, "qr.drawFinderPatterns/clipped", d.fn.Pos(), d.guard, d.clip)
+			// the three corners
+			n := NewNormer(c.P)
+			if render := c.P.Func("qr.render"); render != nil {
+				n.Root = render // a dimension handed in as a parameter is read in render's terms
+				for _, p := range render.Params {
+					if namedTypeName(p.Type()) == "qr.versionInfo" {
+						n.Bind[p] = "vi"
+					}
+				}
+			}
+			for _, p := range fn.Params {
+				if namedTypeName(p.Type()) == "qr.versionInfo" {
+					n.Bind[p] = "vi"
+				}
+			}
+			var got []string
+			dimOK := true
+			eachInstr(fn, func(b *ssa.BasicBlock, ins ssa.Instruction) {
+				if call, ok := ins.(*ssa.Call); ok && call.Common().StaticCallee() == d.fn {
+					if d.offIdx[0] < 0 || d.offIdx[1] < 0 {
+						got = append(got, "(?, ?)")
+					} else {
+						got = append(got, fmt.Sprintf("(%s, %s)", n.Norm(call.Common().Args[d.offIdx[0]]), n.Norm(call.Common().Args[d.offIdx[1]])))
+					}
+					// the bound used for clipping is the symbol's dimension
+					n.Ctx = []ssa.CallInstruction{call}
+					eachInstr(d.fn, func(b2 *ssa.BasicBlock, i2 ssa.Instruction) {
+						if bo, ok := i2.(*ssa.BinOp); ok && bo.Op == token.LSS && pEqual(d.dim, pAtom("dim")) || ok && bo.Op == token.LSS {
+							if _, isParamOrFree := bo.Y.(*ssa.Const); !isParamOrFree && isIntType(bo.Y.Type()) && d.clipBound != nil && bo.Y == d.clipBound {
+								if !pEqual(n.Norm(bo.Y), MustRef("4*vi.Version + 17")) {
+									dimOK = false
+								}
+							}
+						}
+					})
+					n.Ctx = nil
+				}
+			})
+			c.Check(R, "qr.drawFinderPatterns/dimension", fn.Pos(), dimOK && d.clipBound != nil, "clipped at the symbol dimension 4*version + 17", fmt.Sprint(dimOK))
+			sort.Strings(got)
+			dim := MustRef("4*vi.Version + 17 - 7").String()
+			want := []string{"(0, 0)", fmt.Sprintf("(0, %s)", dim), fmt.Sprintf("(%s, 0)", dim)}
+			sort.Strings(want)
+			c.Check(R, "qr.drawFinderPatterns/corners", fn.Pos(), fmt.Sprint(got) == fmt.Sprint(want), fmt.Sprint(want), fmt.Sprint(got))
+		}
+	}
+}
+
+func init() {
+	register("C01", ruleQRPatterns)
+}
+
+// boolParam: the one boolean parameter of fn (the variant flag), if there is exactly one.
+func boolParam(fn *ssa.Function) *ssa.Parameter {
+	var found *ssa.Parameter
+	for _, p := range fn.Params {
+		if isBoolType(p.Type()) {
+			if found != nil {
+				return nil
+			}
+			found = p
+		}
+	}
+	return found
+}
+
+// renameBool: a copy of the condition with the boolean atom `from` named `to`.
+func renameBool(c *Cond, from, to string) *Cond {
+	if c == nil || from == "" {
+		return c
+	}
+	out := *c
+	if c.Kind == CBool && canonAccess(c.Name) == from {
+		out.Name = to
+	}
+	if len(c.Sub) > 0 {
+		out.Sub = make([]*Cond, len(c.Sub))
+		for i, s := range c.Sub {
+			out.Sub[i] = renameBool(s, from, to)
+		}
+	}
+	return &out
+}
+
+// countdownFrom: the header h tests `v > 0` for a variable that starts at some value N and is
+// decremented by one on every way round - the loop runs max(N, 0) times; returns N.
+func countdownFrom(h *ssa.BasicBlock) ssa.Value {
+	iff, ok := h.Instrs[len(h.Instrs)-1].(*ssa.If)
+	if !ok {
+		return nil
+	}
+	bo, ok := iff.Cond.(*ssa.BinOp)
+	if !ok {
+		return nil
+	}
+	var phi *ssa.Phi
+	switch {
+	case bo.Op == token.GTR:
+		if k, isK := constInt(bo.Y); isK && k == 0 {
+			phi, _ = bo.X.(*ssa.Phi)
+		}
+	case bo.Op == token.LSS:
+		if k, isK := constInt(bo.X); isK && k == 0 {
+			phi, _ = bo.Y.(*ssa.Phi)
+		}
+	}
+	if phi == nil || phi.Block() != h || len(h.Succs) != 2 || !h.Dominates(h.Succs[0]) {
+		return nil
+	}
+	var start ssa.Value
+	for ei, e := range phi.Edges {
+		if h.Dominates(h.Preds[ei]) {
+			dec, isDec := e.(*ssa.BinOp)
+			if !isDec || dec.Op != token.SUB || dec.X != ssa.Value(phi) {
+				return nil
+			}
+			if k, isK := constInt(dec.Y); !isK || k != 1 {
+				return nil
+			}
+		} else {
+			if start != nil && start != e {
+				return nil
+			}
+			start = e
+		}
+	}
+	return start
 }
